@@ -39,7 +39,7 @@ class S(vlib.Spec):
                 "regenerated from descriptor.thrift: field ids, wire types and requiredness read from coq/Wire/SchemaDescriptor.v), descriptor_register.go doRegisterAST, "
                 "descriptor-extend.go GetIncludeFD / getDescriptor / Get*Descriptor / field and method lookups / GetParent / GetAllMethods / TypeDescriptor resolvers, "
                 "descriptor_lookup.go Lookup*, descriptor_register_go_type.go registerGoTypes and the by-Go-type lookups -> coq/Idl/Reflect.v "
-                "(hand-written, after the repair proposed_fixes/C15-namespaces-first-wins), tied by correspondence on every run, in process and through compiled generated code")
+                "(hand-written, after the repairs proposed_fixes/C15-namespaces-first-wins and C15-include-prefix-any-extension), tied by correspondence on every run, in process and through compiled generated code")
     trusted_base = [
         "translator T-thrift (harness/thriftschema + cmd/translate-thrift: real parser + semantic.ResolveSymbols -> Wire.Schema.env term) regenerates coq/Wire/SchemaDescriptor.v from thrift_reflection/descriptor.thrift on every check",
         "hand-written model coq/Idl/Reflect.v; wire codec model coq/Wire/Codec.v (Thrift binary protocol) shared with C02; the meta.RegisterStruct tables embedded in thrift_reflection/descriptor.go are not read: the bytes of the real Marshal are decoded with the regenerated schema in every file case",
@@ -51,7 +51,7 @@ class S(vlib.Spec):
     ]
     assumptions = [
         "descriptor_faithful takes the parser's guarantee that the annotations of a node have pairwise distinct keys (file_annos_ok: Annotations.Append groups repeated keys) as a decidable premise; the correspondence never sees it violated",
-        "includes_faithful and the lookups through an include prefix assume distinct_basenames (no two includes of a file share a base name) and includes_plain (included files are called *.thrift); without the first the unchanged code violates the property (known finding)",
+        "includes_faithful and the lookups through an include prefix assume distinct_basenames (no two includes of a file share a base name) and includes_plain (every include parsed, found under the base name the statement wrote); without the first the unchanged code violates the property (known finding)",
         "lookups without a file path range over a Go map: the theorem about them assumes the name is defined by exactly one registered file",
     ]
 
